@@ -394,12 +394,43 @@ impl Sess {
             "map" => Map::new(bytes).map(|m| (m.len(), m.is_empty())),
             "set" => Set::new(bytes).map(|m| (m.len(), m.is_empty())),
             "slice" => Fst::new(&bytes[..]).map(|m| (m.len(), m.is_empty())),
+            "cow" => Fst::new(std::borrow::Cow::Borrowed(&bytes[..])).map(|m| (m.len(), m.is_empty())),
+            "arc" => Fst::new(std::sync::Arc::<[u8]>::from(&bytes[..])).map(|m| (m.len(), m.is_empty())),
+            "mmap" => {
+                let mut mm = memmap2::MmapMut::map_anon(std::cmp::max(1, bytes.len())).unwrap();
+                mm[..bytes.len()].copy_from_slice(&bytes);
+                if bytes.is_empty() {
+                    Fst::new(&bytes[..]).map(|m| (m.len(), m.is_empty()))
+                } else {
+                    let ro = mm.make_read_only().unwrap();
+                    // an anonymous map is page-sized; view exactly the file's bytes
+                    struct View(memmap2::Mmap, usize);
+                    impl AsRef<[u8]> for View {
+                        fn as_ref(&self) -> &[u8] {
+                            &self.0[..self.1]
+                        }
+                    }
+                    Fst::new(View(ro, bytes.len())).map(|m| (m.len(), m.is_empty()))
+                }
+            }
+            "map_data" => Fst::new(bytes.clone()).and_then(|f| f.map_data(|v| std::sync::Arc::<[u8]>::from(v))).map(|m| (m.len(), m.is_empty())),
             _ => Fst::new(bytes).map(|m| (m.len(), m.is_empty())),
         });
         match r {
             Ok(Ok((len, empty))) => self.log.ev(json!({"ev": "Open", "f": f, "via": via, "res": jok(), "len": jn(len), "empty": empty})),
             Ok(Err(e)) => self.log.ev(json!({"ev": "Open", "f": f, "via": via, "res": jerr(&e), "len": 0, "empty": true})),
             Err(p) => self.panic_ev("Open", &p),
+        }
+    }
+
+    /// verify() on an opened FST: versions 1-2 carry no checksum.
+    pub fn verify_ev(&mut self, f: usize, version: u64) {
+        let bytes = self.fsts[f - 1].0.clone();
+        let r = guard(|| Fst::new(&bytes[..]).map(|f| f.verify()));
+        match r {
+            Ok(Ok(v)) => self.log.ev(json!({"ev": "Verify", "f": f, "version": version, "res": jres(&v)})),
+            Ok(Err(_)) => {}
+            Err(p) => self.panic_ev("Verify", &p),
         }
     }
 
